@@ -1,6 +1,6 @@
 (* Entry points for C19 (descriptives + smoothing): val -> val wrappers. *)
 From CNV Require Import Base.Prelude Base.Val Base.QNum Gen.DescDefaults
-  Model.Descriptives Model.Smoothing.
+  Model.Descriptives Model.Smoothing Spec.Stats.
 Local Open Scope Q_scope.
 
 Definition getOQ : val -> option (option Q) := getOpt getQ.
@@ -309,5 +309,19 @@ Definition e_c19_check_inputs (v : val) : val :=
       | inl (w, sig, pw) => VL [VZ w; vListQ sig; vOptListQ pw]
       | inr e => vWing e
       end
+  | None => bad_input
+  end.
+
+(* ---- executable Spec functions (Spec/Stats.v), cross-checked against the harness's own oracles ---- *)
+Definition e_c19_spec_gapper (v : val) : val :=
+  match getQs v with
+  | Some a => vQ (gapperQ a)
+  | None => bad_input
+  end.
+
+(* [x; wing; i] -> the mirrored window around position i *)
+Definition e_c19_spec_mirrored (v : val) : val :=
+  match getTriple getQs getNat getNat v with
+  | Some (x, w, i) => vListQ (mirrored_window x w i)
   | None => bad_input
   end.
